@@ -393,7 +393,8 @@ func TestProp(t *testing.T) {
 			"(ray through vertex / bounding-line cases), or >=2 rings of >=3 vertices; receivers with >=2 vertices. Distinct by case hash." +
 			" Round 9: rings whose last vertex is one to three floating-point steps from the first ('nearly closed'); query points at exactly the height or abscissa of a vertex." +
 			" Round 10: receivers built with vkit.SharedGeom (point lists out of order and with gaps in one array, checked for changes)." +
-			" Round 11: one receiver in four has 15-257 vertices (16, 32, 48, 64, 96, 128, 192, 256 plus or minus one), all Inside or OnEdge except - two cases in three - one vertex at a drawn index.",
+			" Round 11: one receiver in four has 15-257 vertices (16, 32, 48, 64, 96, 128, 192, 256 plus or minus one), all Inside or OnEdge except - two cases in three - one vertex at a drawn index." +
+			" Round 12: in one receiver case in six the receiver is a member of the multi-polygon argument itself (same memory).",
 		Assumptions: []string{"coordinates k/4 with |k|<=33 make all cross products exact in float64, so the oracle is exact on the grid"},
 		Gen:         gen,
 		Run:         run,
